@@ -272,6 +272,39 @@ def immediate_events(sel, trace, within=None):
     return groups
 
 
+def events_at(sel, trace, idx):
+    """The group of events `immediate_events` would produce for the binding at index idx
+    (using only bindings up to idx)."""
+    path = focus_path(sel)
+    fcap = [c for c in path[-1].caps if c.focus == 1][0]
+    binds = trace.binds
+    b = binds[idx]
+    if b.var != fcap.name or b.act.fn != path[-1].fn:
+        return []
+    group = []
+    for emb in embeddings(path, b.act):
+        ev = {}
+        for i, (call, act) in enumerate(zip(path, emb)):
+            nxt = path[i + 1] if i + 1 < len(path) else None
+            for c in call.caps:
+                v = _latest(binds, idx, lambda x: x.act is act and x.var == c.name)
+                if v is not None:
+                    ev[_capkey(c)] = v.value
+            for chain, node in _sibling_nodes(call, nxt):
+                for c in node.caps:
+                    v = _latest(
+                        binds,
+                        idx,
+                        lambda x: x.var == c.name
+                        and x.act.fn == node.fn
+                        and count_chain_under(chain, x.act, act) > 0,
+                    )
+                    if v is not None:
+                        ev[_capkey(c)] = v.value
+        group.append(ev)
+    return group
+
+
 def _enter_t(trace, act):
     # time of the activation's first bind (#enter)
     for b in trace.binds:
